@@ -18,6 +18,10 @@ var texts = []string{
 	"{ q1 }",
 	"{ q2 }",
 	"{  q2 }",
+	// the next two are equal after white-space normalisation but are different documents: the line
+	// break ends the comment in the first, so q2 is selected there and commented out in the second
+	"{ q1 # c\n q2\n}",
+	"{ q1 # c q2\n}",
 	"{ q3 }",
 	"{ q1 q2 }",
 	"query A { q3 q1 }",
@@ -27,14 +31,16 @@ var texts = []string{
 
 // textRoots: the root fields a text resolves (sorted), written down by hand - not derived from gqlgen.
 var textRoots = map[string][]string{
-	texts[0]: {"q1"},
-	texts[1]: {"q2"},
-	texts[2]: {"q2"},
-	texts[3]: {"q3"},
-	texts[4]: {"q1", "q2"},
-	texts[5]: {"q1", "q3"},
-	texts[6]: {"nn"},
-	texts[7]: {"q2"},
+	"{ q1 }":            {"q1"},
+	"{ q2 }":            {"q2"},
+	"{  q2 }":           {"q2"},
+	"{ q1 # c\n q2\n}":  {"q1", "q2"},
+	"{ q1 # c q2\n}":    {"q1"},
+	"{ q3 }":            {"q3"},
+	"{ q1 q2 }":         {"q1", "q2"},
+	"query A { q3 q1 }": {"q1", "q3"},
+	"{ nn }":            {"nn"},
+	"{ q2\n}":           {"q2"},
 }
 
 type symbol struct {
